@@ -299,10 +299,53 @@ func (g c14Gen) cxRandom(id string, synced bool, maxLen int) *c14Case {
 	return &c14Case{id: id, synced: synced, probes: c14Probes(nil, pool...), ops: c14Finish(ops, nil, pool...), tag: "cx-random", cx: true}
 }
 
+// (4) values that are neither a string nor a CacheableParam (GetCacheKey answers "not cacheable",
+// the wrapper must ask the embedded enforcer every time) next to the strings they resemble: for
+// every kind of value (int, struct, float, bool, nil, a named string type holding "alice",
+// []byte("alice")) and every position, the stored rule, the rule with "" there, and the rule with
+// the value there, interleaved; then the same over the empty policy, where the all-empty request
+// is allowed and a request with such a value is not.  On both fixtures.
+func c14NonString() []*c14Case {
+	var out []*c14Case
+	base := []string{"alice", "data1", "read"}
+	for n := 0; n < 7; n++ {
+		for pos := 0; pos < 3; pos++ {
+			for _, cx := range []bool{false, true} {
+				for _, synced := range []bool{false, true} {
+					q0 := c14Strs(base)
+					q1 := c14Strs(base)
+					q1[pos] = c14Param{kind: 'n', n: n}
+					q2 := c14Strs(base)
+					q2[pos] = c14S("")
+					e0 := c14Strs([]string{"", "", ""})
+					e1 := c14Strs([]string{"", "", ""})
+					e1[pos] = c14Param{kind: 'n', n: n}
+					e := func(ps []c14Param) c14Op { return c14Op{kind: "e", ps: ps} }
+					ops := []c14Op{e(q0), e(q1), e(q2), e(q1), e(q0), e(q1), e(q2),
+						{kind: "clear"}, e(e0), e(e1), e(e0), e(e1), e(q1), e(q0)}
+					if cx {
+						with := append([]c14Param{c14Ctx([4]string{"r", "p", "e2", "m3"})}, q1...)
+						ops = append(ops, c14Op{kind: "load"}, e(append([]c14Param{c14Ctx([4]string{"r", "p", "e2", "m3"})}, q0...)), e(with), e(q1), e(with))
+					}
+					fx := "acl"
+					if cx {
+						fx = "cx"
+					}
+					out = append(out, &c14Case{
+						id:     fmt.Sprintf("c14.nonstr.%s.%d.%d.%s", fx, n, pos, c14V(synced)),
+						synced: synced, probes: [][]c14Param{q0, q1, q2, e0, e1}, ops: ops, tag: "non-string", cx: cx})
+				}
+			}
+		}
+	}
+	return out
+}
+
 func c14CxCases(g c14Gen, nRandom, maxLen int) []*c14Case {
 	var out []*c14Case
 	out = append(out, c14CxPairs()...)
 	out = append(out, c14CxMixes()...)
+	out = append(out, c14NonString()...)
 	for i := 0; i < nRandom; i++ {
 		for _, synced := range []bool{false, true} {
 			out = append(out, g.cxRandom(fmt.Sprintf("c14.cx.r.%d.%s", i, c14V(synced)), synced, maxLen))
